@@ -28,7 +28,9 @@ type c04Cfg struct {
 	PostSSE bool
 }
 
-func (c c04Cfg) String() string { return fmt.Sprintf("%s/get=%v/postsse=%v", c.Mode, c.GetSSE, c.PostSSE) }
+func (c c04Cfg) String() string {
+	return fmt.Sprintf("%s/get=%v/postsse=%v", c.Mode, c.GetSSE, c.PostSSE)
+}
 
 func c04Configs(tier string) []c04Cfg {
 	var out []c04Cfg
